@@ -219,7 +219,7 @@ PROPS = {
     "C15": dict(
         module="Evl.Props.C15",
         theorems=["Evl.C15.trigger_iff", "Evl.C15.no_age_rotation_without_positive_duration", "Evl.C15.trigger_on_source", "Evl.C15.never_without_limits", "Evl.C15.prune_keeps_foreign",
-                  "Evl.C15.created_mode", "Evl.C15.open_name", "Evl.C15.prune_bound", "Evl.C15.retention_bound", "Evl.C15.rotate_below", "Evl.C15.write_below_limit"],
+                  "Evl.C15.created_mode", "Evl.C15.open_name", "Evl.C15.prune_bound", "Evl.C15.retention_bound", "Evl.C15.rotate_below", "Evl.C15.write_below_limit", "Evl.C15.no_rotation_without_trigger"],
         runs=[FS_RUN], oracle_prefixes=["C15"], models=["M5 FileSink", "Generated.Decisions"],
         trusted_base=TB_COMMON + ["gofacts translator: the rotation condition is regenerated from file_sink.go on every run"],
         assumptions=FS_ASSUME, rule=FS_RULE,
